@@ -130,8 +130,6 @@ mut("c11_f4_revert", "src/blob/index/core.rs", """                    if let Sta
                         *headers.write().expect("rwlock") = data;
                     }
                     return Err(e);""", "                    drop(data);\n                    return Err(e);", ["C11"], "reverts fix F4 (failed dump drops headers)")
-mut("c11_close_loses_blob", "src/storage/core.rs", """                    safe.active_blob = Some(Box::new(ASRwLock::new(ablob)));
-                    return Err(e.into());""", "                    drop(ablob);\n                    return Err(e.into());", ["C11"], "reverts fix: failed sync in close_active_blob drops the blob")
 mut("c11_append_open", "src/io/unix/sync.rs", "File::from_file(path, |f| f.create(false).write(true).read(true)).await", "File::from_file(path, |f| f.create(false).append(true).read(true)).await", ["C11"], "reverts fix: O_APPEND open")
 mut("c11_swallow_write_error", "src/io/unix/sync.rs", "                Self::write_data(&file_inner.std_file, offset, res)?;\n                Ok(data)\n            })\n        } else {", "                let _ = Self::write_data(&file_inner.std_file, offset, res);\n                Ok(data)\n            })\n        } else {", ["C11"], "write error swallowed on the in-place path: failed write acknowledged")
 mut("c11_index_push_before_write", "src/blob/core.rs", """        let write_result = partially_serialized.write_to_file(&blob.file).await?;
@@ -153,7 +151,10 @@ mut("c12_no_dump_sync", "src/blob/core.rs", """            self.fsyncdata()
                 .await
                 .with_context(|| format!("blob file dump failed: {:?}", self.name.as_path()))?;
 """, "", ["C12"], "index marked complete without syncing the blob")
-mut("c12_no_close_sync", "src/storage/core.rs", "                ablob.fsyncdata().await?;\n", "", ["C12"])
+mut("c12_no_close_sync", "src/storage/core.rs", """            if let Some(ablob) = safe.active_blob.as_ref() {
+                ablob.read().await.fsyncdata().await?;
+            }
+""", "", ["C12"], "try_close_active_blob no longer syncs the blob")
 mut("c12_should_try_ge", "src/storage/core.rs", "        dirty_bytes > self.config().max_dirty_bytes_before_sync()", "        dirty_bytes > self.config().max_dirty_bytes_before_sync() + 64", ["C12"], "threshold off by 64 bytes")
 mut("c12_synced_post_size", "src/io/unix/sync.rs", "               file_inner.synced_size.fetch_max(size, Ordering::SeqCst);", "               file_inner.synced_size.fetch_max(size.saturating_sub(1), Ordering::SeqCst);", ["C12"], "one byte always considered dirty: limit 0 syncs forever but harmless? (dirty accounting)")
 mut("c12_f7_revert", "src/storage/core.rs", "        self.inner.safe.read().await.fsyncdata().await\n    }", "        self.inner.fsyncdata().await\n    }", ["C12"], "reverts fix F7")
